@@ -1366,10 +1366,10 @@ def judge_c19_rawde(ctx, cfg):
     import rawde_gen as G
     rng = ctx.rng
     L = ctx.letters(cfg)
-    types = G.TYPES if ctx.tier == 'thorough' else G.TYPES[::3] + ['i4', 'n4', 'oi4', 'wn4']
+    types = G.TYPES[::2] + ['i4', 'n4', 'oi4', 'wn4'] if ctx.tier == 'thorough' else G.TYPES[::3] + ['i4', 'n4', 'oi4', 'wn4']
     pairs = [(t, x) for t in types for x in G.TEXTS]
     pairs += [(t, x) for t in ['b', 'i4', 'v', 'ai0'] for x in G.NOT_JSON]
-    for _ in range(2000 if ctx.tier == 'quick' else 30000):
+    for _ in range(2000 if ctx.tier == 'quick' else 10000):
         pairs.append((rng.choice(G.TYPES), G.rand_text(rng)))
     rd = ['rd %s %s %s' % (L, t, hx(x.encode())) for t, x in pairs]
     rs = ['rs' + l[2:] for l in rd]
@@ -1398,7 +1398,7 @@ def run_c19(ctx):
                 '1-byte reader; captured span and accept/reject compared with the model (proved: exactly the source text of one value; scanner = RFC 8259 grammar minus '
                 'surrogate pairing, numeric range, depth); nested placements (array element, object value, struct field) through the typed harness; non-trivial as C01')
     for cfg in ctx.cfgs:
-        for batch in chunks(space_inputs(ctx) if ctx.tier == 'thorough' else itertools.chain(gen.enum_tokens(3), itertools.islice(gen.enum_tokens(4, minlen=4), 0, None, 5), doc_inputs(ctx, 1500)), 300000):
+        for batch in chunks(space_inputs(ctx) if (ctx.tier == 'thorough' and cfg == ctx.cfgs[0]) else itertools.chain(gen.enum_tokens(3), itertools.islice(gen.enum_tokens(4, minlen=4), 0, None, 5), doc_inputs(ctx, 1500)), 300000):
             note_dist(ctx, batch)
             ctx.violations += judge_c19(ctx, cfg, batch)
             ctx.violations += judge_c19_from_string(ctx, cfg, batch[::7])
